@@ -184,10 +184,38 @@ def _validation_only(p: Path, params: set[str]) -> bool:
 
 
 # ------------------------------------------------------------------------------------------------------------------------------ merges
-def _slice_adjacency(f: Func):
+def _slice_adjacency(f: Func, model: Model | None = None):
     """The function up to (not including) the traversal, returning the adjacency map that the nested traversal reads."""
     node = copy.deepcopy(f.node)
     nested = [s for s in node.body if isinstance(s, ast.FunctionDef)]
+    if not nested and model is not None and node.body and isinstance(node.body[-1], ast.Return) and isinstance(node.body[-1].value, ast.Call) \
+            and isinstance(node.body[-1].value.func, ast.Name) and len(node.body[-1].value.args) == 1 and isinstance(node.body[-1].value.args[0], ast.Name) \
+            and not node.body[-1].value.keywords:
+        # the traversal lives in a helper that receives the adjacency map:  return helper(adj)
+        call = node.body[-1].value
+        h = model.resolve_name(f.module, call.func.id)
+        if isinstance(h, Func) and len(h.node.args.args) == 1:
+            hn = copy.deepcopy(h.node)
+            hnested = [s for s in hn.body if isinstance(s, ast.FunctionDef)]
+            if len(hnested) == 1 and len(hnested[0].args.args) == 2:
+                dft = hnested[0]
+                adj_h = hn.args.args[0].arg
+                reads = any(isinstance(n, ast.For) and isinstance(n.iter, ast.Subscript) and isinstance(n.iter.value, ast.Name) and n.iter.value.id == adj_h
+                            for n in ast.walk(dft))
+                if reads:
+                    rest = []
+                    hit = False
+                    for st in hn.body:
+                        if st is dft:
+                            continue
+                        if not hit and isinstance(st, ast.For) and any(isinstance(c, ast.Call) and isinstance(c.func, ast.Name) and c.func.id == dft.name for c in ast.walk(st)):
+                            hit = True
+                        if hit:
+                            rest.append(st)
+                    if hit:
+                        node.body = node.body[:-1] + [ast.Return(value=ast.Name(id=call.args[0].id, ctx=ast.Load()))]
+                        ast.fix_missing_locations(node)
+                        return Func(f.qname + "#adjacency", f.module, node, None, ()), (dft, adj_h, rest)
     if len(nested) != 1 or len(nested[0].args.args) != 2:
         return None, None
     dft = nested[0]
@@ -270,6 +298,17 @@ def _closure_problems(dft: ast.FunctionDef, adj: str, rest: list[ast.stmt]) -> l
                 if isinstance(c, ast.Call) and isinstance(c.func, ast.Attribute) and c.func.attr == "union" and isinstance(c.func.value, ast.Name) and c.func.value.id == k \
                         and len(c.args) == 1 and isinstance(c.args[0], ast.Starred) and isinstance(c.args[0].value, ast.Name) and c.args[0].value.id == vs:
                     res_ok = True
+    for st in rest:
+        for cmp_ in ast.walk(st):
+            if isinstance(cmp_, (ast.SetComp, ast.ListComp, ast.GeneratorExp)) and len(cmp_.generators) == 1 and not cmp_.generators[0].ifs:
+                g = cmp_.generators[0]
+                if isinstance(g.iter, ast.Call) and isinstance(g.iter.func, ast.Attribute) and g.iter.func.attr == "items" and isinstance(g.iter.func.value, ast.Name) \
+                        and g.iter.func.value.id == comp and isinstance(g.target, ast.Tuple) and len(g.target.elts) == 2 and all(isinstance(x, ast.Name) for x in g.target.elts):
+                    k, vs = g.target.elts[0].id, g.target.elts[1].id
+                    c = cmp_.elt
+                    if isinstance(c, ast.Call) and isinstance(c.func, ast.Attribute) and c.func.attr == "union" and isinstance(c.func.value, ast.Name) and c.func.value.id == k \
+                            and len(c.args) == 1 and isinstance(c.args[0], ast.Starred) and isinstance(c.args[0].value, ast.Name) and c.args[0].value.id == vs:
+                        res_ok = True
     if not res_ok:
         problems.append("the result is not the union of the sets of each component")
     return problems
@@ -279,7 +318,7 @@ def r19_merges(model: Model, rep: Report, sa: SetAlg) -> None:
     for q, ref, types in ((f"{AU}._merge_frozen_sets_with_common_vertices", "adjacency_common_vertices", {"input_sets": SETS}),
                           (f"{AU}._merge_frozen_sets_linked_by_bidirectional_edges", "adjacency_bidirected", {"input_sets": SETS, "graph": G})):
         f = model.func(q)
-        sliced, info = _slice_adjacency(f)
+        sliced, info = _slice_adjacency(f, model)
         if sliced is None:
             rep.unknown("R19.4", construct(f, "merge-relation"), "the routine is no longer 'adjacency map + traversal + union per component'; the rule cannot read its merge relation", loc(f))
             continue
